@@ -6,7 +6,7 @@
    [fe fc fl fd] = the repairs F-eofspin, F-closerace, F-connect-lost, F-serial-drain-leak; the theorems are about
    [true true true true], for EVERY kind, EVERY reachable state and EVERY run (any length, any schedule, any peer behaviour).
    `reachable k fe fc fl fd x` := exists ls, run k fe fc fl fd init ls = Some x.  Delays are in units of 0.5 s. *)
-From NV Require Import Base ClientLTS ClientLTSProofs.
+From NV Require Import Base ClientLTS ClientLTSProofs ClientLTSLive.
 
 (* ---- after a fault: DISCONNECTED is reported (once), and a reconnect is on its way ---- *)
 (* `fault_cb a = Some c`: [a] is a read fault in the receive loop (exception from `_receive_impl`, incl. end of stream and
@@ -54,6 +54,55 @@ Theorem C13_recovery_possible : forall k x,
              exists y, run k true true true true x ls = Some y /\ recovered y.
 Proof. exact recovery_possible. Qed.
 Print Assumptions C13_recovery_possible.
+
+(* ---- recovery is inevitable when the environment is quiet (ClientLTSLive.v) ---- *)
+(* `qstep x a`: [a] is a step of the client's own machinery (connect(), receive loop, queue consumer, fault handlers) with a
+   gateway that accepts - no application call, no peer action, no failing attempt - that is realistic at x (a suspended read
+   is only resumed when it can make progress; a read enqueues at most one message per consumed byte).
+   `qrun k x ls = Some y`: ls is a run of such steps from x to y.  `stuck_quiet k y`: no such step is enabled in y. *)
+
+(* every quiet step strictly decreases the explicit measure [lmu], in EVERY state: a quiet run from x has at most lmu x steps *)
+Theorem C13_recovery_terminates : forall k,
+  (forall x a y, qstep x a = true -> trans k true true true true x a = Some y -> (lmu y < lmu x)%nat) /\
+  (forall ls x y, qrun k x ls = Some y -> (length ls + lmu y <= lmu x)%nat).
+Proof. intro k. split; [exact (lmu_step k) | exact (recovery_terminates k)]. Qed.
+Print Assumptions C13_recovery_terminates.
+
+(* a reachable non-CLOSED state in which no quiet step is enabled is at rest: CONNECTED, lock free, nothing pending, the
+   receive task alive, not cancelled and waiting for data, nothing consumable buffered, queue drained - or it was never
+   asked to connect.  In particular every state with a reconnect pending has an enabled quiet step. *)
+Theorem C13_no_deadlock_before_recovery : forall k x,
+  reachable k true true true true x -> st x <> Closed -> stuck_quiet k x -> rest_connected k x \/ rest_idle x.
+Proof. exact no_deadlock. Qed.
+Print Assumptions C13_no_deadlock_before_recovery.
+
+(* every maximal quiet run from a reachable non-CLOSED state in which a connect() was asked for (in particular: a reconnect
+   is pending after a fault) is finite - at most lmu x steps - and ends recovered *)
+Theorem C13_recovery_inevitable : forall k x ls y,
+  reachable k true true true true x -> st x <> Closed -> asked x ->
+  qrun k x ls = Some y -> stuck_quiet k y -> (length ls <= lmu x)%nat /\ rest_connected k y.
+Proof. exact recovery_inevitable. Qed.
+Print Assumptions C13_recovery_inevitable.
+
+Example C13_recovery_inevitable_nonvacuous : exists x y,
+  run KEByte true true true true init post_fault = Some x /\ st x = Conn /\ eof x = true /\
+  qrun KEByte x quiet_recovery = Some y /\ stuck_quiet KEByte y /\ rest_connected KEByte y /\
+  trace y = [Conn; Disc; Conn] /\ (length quiet_recovery <= lmu x)%nat.
+Proof. exact recovery_inevitable_example. Qed.
+
+Theorem C13_recovery_inevitable_after_fault : forall k x ls y,
+  reachable k true true true true x -> st x <> Closed -> reconnect_pending x ->
+  qrun k x ls = Some y -> stuck_quiet k y -> (length ls <= lmu x)%nat /\ rest_connected k y.
+Proof. exact recovery_inevitable_after_fault. Qed.
+Print Assumptions C13_recovery_inevitable_after_fault.
+
+(* why "own step" needs the realism side condition: with the label alone the model (an over-approximation) has a
+   self-loop - a suspended read "resumed" without new data *)
+Theorem C13_quiet_only_refuted_spurious_wakeup : exists s,
+  run KEByte true true true true init rwait_state = Some s /\ quiet (ARxIter RxSusp) = true /\
+  forall n, run KEByte true true true true s (repeat (ARxIter RxSusp) n) = Some s.
+Proof. exact quiet_only_refuted_spurious_wakeup. Qed.
+Print Assumptions C13_quiet_only_refuted_spurious_wakeup.
 
 (* ---- retries: growing, capped, never-zero delay; for as long as needed ---- *)
 Theorem C13_backoff : forall n, 1 <= n ->
